@@ -7,7 +7,7 @@ from hv import Case
 
 SPEC = {
     "lean_modules": ["Honeycomb.Props.C01"],
-    "required_theorems": ["C01_history_preserves_WF"],
+    "required_theorems": ["C01_history_preserves_WF", "C01_step_preserves_WF", "C01_failed_call_changes_nothing", "C01_unused_is_nobodys_image"],
     "trusted_base": [
         "Lean 4.33 kernel; axioms propext, Classical.choice, Quot.sound only",
         "hand-written model Honeycomb/Model/{Stm,Map,Ops,Ops2}.lean tied to /repo by the hcmodel/hcimpl correspondence run",
